@@ -147,7 +147,8 @@ def profile_case(case):
             arr = [float(v) for v in np.where(np.arange(n) % 2 == 0, a, b)]
         else:
             arr = [a, b, a, (a * b) ** 0.5, b, b, a][:m]
-        gas = ArrayGas('H2O', arr)
+        # the control values as a list, a tuple or an array - the same profile
+        gas = ArrayGas('H2O', {0: list, 1: tuple, 2: np.array}[(n + len(arr)) % 3](arr))
         lo, hi = min(arr), max(arr)
         sigtail = 'nodes=%s' % m
     elif kind == 'power':
